@@ -78,6 +78,17 @@ def build_message(spec):
         if spec.get("host", "x") is not None:
             m.origin_host = spec.get("host", "cli0.example.net").encode()
         m.origin_realm = b"example.net"
+    elif k == "req" and spec.get("code") == 271:      # Accounting-Request (RFC 6733 9.7.1)
+        from diameter.message.commands import AccountingRequest
+        m = AccountingRequest()
+        m.session_id = "acct;%d" % e2e
+        m.origin_host = spec.get("host", "cli0.example.net").encode()
+        m.origin_realm = b"example.net"
+        m.destination_realm = spec.get("drealm", "example.net").encode()
+        m.accounting_record_type = 1
+        m.accounting_record_number = 0
+        m.acct_application_id = spec.get("app", 4)
+        m.header.application_id = spec.get("hdr_app", spec.get("app", 4))
     elif k == "req":        # application request (Credit-Control unless code given)
         if spec.get("code", 272) == 272:
             m = CreditControlRequest()
@@ -87,7 +98,9 @@ def build_message(spec):
             if spec.get("host", "x") is not None:
                 m.origin_host = spec.get("host", "cli0.example.net").encode()
             m.origin_realm = b"example.net"
-            if spec.get("drealm", "example.net") is not None:
+            if spec.get("drealm_raw") is not None:
+                m.destination_realm = spec["drealm_raw"]          # bytes that are not text
+            elif spec.get("drealm", "example.net") is not None:
                 m.destination_realm = spec.get("drealm", "example.net").encode()
             m.service_context_id = "ctx"
             if not spec.get("no_type"):
@@ -100,6 +113,8 @@ def build_message(spec):
             m.header.is_request = True
             if spec.get("host", "x") is not None:
                 m.append_avp(Avp.new(constants.AVP_ORIGIN_HOST, value=spec.get("host", "cli0.example.net").encode()))
+            for sid in spec.get("sessions", ()):
+                m.append_avp(Avp.new(constants.AVP_SESSION_ID, value=sid))
             if spec.get("host2") is not None:
                 # a second Origin-Host AVP: a command without a python class exposes repeated AVPs as a list
                 m.append_avp(Avp.new(constants.AVP_ORIGIN_HOST, value=spec["host2"].encode()))
@@ -127,13 +142,22 @@ def build_message(spec):
     return m.as_bytes()
 
 
+# required AVPs of the base-protocol requests per RFC 6733: CER (Origin-Host, Origin-Realm, Host-IP-Address, Vendor-Id,
+# Product-Name), DWR (Origin-Host, Origin-Realm), DPR (Origin-Host, Origin-Realm, Disconnect-Cause)
+RFC6733_REQUIRED = {257: [264, 296, 257, 266, 269], 280: [264, 296], 282: [264, 296, 273]}
+
+
 def abstract(wire):
     """The node's view of a received frame, as the record `msg` of Model/Node.v (Coq text) + a dict."""
     from diameter.message import Message
     m = Message.from_bytes(wire)
-    h = m.header
-    code = h.command_code
+    # the header as it stands on the WIRE (RFC 6733 section 3), not as the library's decoder reports it
+    w_flags = wire[4]
+    w_code = int.from_bytes(wire[5:8], "big")
+    w_app, w_hbh, w_e2e = (int.from_bytes(wire[k:k + 4], "big") for k in (8, 12, 16))
+    code = w_code
     cmd = CMD.get(code)
+    is_req_ = bool(w_flags & 0x80)
 
     def pres(attr, dec=True):
         if not hasattr(m, attr):
@@ -145,7 +169,11 @@ def abstract(wire):
         if v is None:
             return "Absent", None
         if isinstance(v, bytes) and dec:
-            v = v.decode()
+            try:
+                v = v.decode()
+            except UnicodeDecodeError:
+                # not text at all: the node's own .decode() fails -- the case the model has as "no usable value"
+                return "Absent", None
         return "Present", v
     o = pres("origin_host")
     dr = pres("destination_realm")
@@ -153,7 +181,12 @@ def abstract(wire):
     # required AVPs that are missing: decided from the WIRE (reference parser) and the class's definition table, not by
     # the implementation's own validator -- absent on the wire and not filled in by the class on its own
     missing = []
-    if h.is_request and getattr(type(m), "avp_def", None):
+    if is_req_ and code in RFC6733_REQUIRED:
+        # base-protocol requests: what RFC 6733 requires (sections 5.3.1, 5.4.1, 5.5.1), not what the library's table says
+        import implobs
+        present = {(c, v) for c, _f, v, _p in implobs.ref_parse_avps(wire[20:])}
+        missing = [(c, 0) for c in RFC6733_REQUIRED[code] if (c, 0) not in present]
+    elif is_req_ and getattr(type(m), "avp_def", None):
         import implobs
         present = {(c, v) for c, _f, v, _p in implobs.ref_parse_avps(wire[20:])}
         fresh = type(m)()
@@ -176,15 +209,21 @@ def abstract(wire):
                 auth.append(v.auth_application_id)
             if getattr(v, "acct_application_id", None) is not None:
                 acct.append(v.acct_application_id)
-    tag = 1 if (h.is_request and str(getattr(m, "session_id", "") or "").startswith("raise;")) else 0
-    d = dict(tag=tag, cmd=cmd or f"App {code}", req=h.is_request, p=h.is_proxyable, e=h.is_error, t=h.is_retransmit,
-             app=h.application_id, hbh=h.hop_by_hop_identifier, e2e=h.end_to_end_identifier,
+    is_req = bool(w_flags & 0x80)
+    tag = 1 if (is_req and str(getattr(m, "session_id", "") or "").startswith("raise;")) else 0
+    d = dict(tag=tag, cmd=cmd or f"App {code}", req=is_req, p=bool(w_flags & 0x40), e=bool(w_flags & 0x20), t=bool(w_flags & 0x10),
+             app=w_app, hbh=w_hbh, e2e=w_e2e,
              origin=o, drealm=dr, result=rc, missing=missing, slot=slot, auth=auth, acct=acct)
     return d
 
 
 def coq_pres_s(p):
     return p[0] if p[0] != "Present" else f"(Present {vlib.coq_string(p[1].lower() if isinstance(p[1], str) else str(p[1]))})"
+
+
+def coq_pres_exact(p):
+    """as it stands on the wire (realm names are looked up as spelt)"""
+    return p[0] if p[0] != "Present" else f"(Present {vlib.coq_string(p[1] if isinstance(p[1], str) else str(p[1]))})"
 
 
 def coq_pres_z(p):
@@ -201,7 +240,7 @@ def coq_msg(d):
             "m_origin := %s; m_drealm := %s; m_result := %s; m_missing := %s; m_has_failed_avp_slot := %s; "
             "m_auth := %s; m_acct := %s; m_tag := %d |}") % (
         coq_cmd(d["cmd"]), b(d["req"]), b(d["p"]), b(d["e"]), b(d["t"]), d["app"], d["hbh"], d["e2e"],
-        coq_pres_s(d["origin"]), coq_pres_s(d["drealm"]), coq_pres_z(d["result"]), miss, b(d["slot"]),
+        coq_pres_s(d["origin"]), coq_pres_exact(d["drealm"]), coq_pres_z(d["result"]), miss, b(d["slot"]),
         vlib.zlist(d["auth"]), vlib.zlist(d["acct"]), d.get("tag", 0))
 
 
@@ -220,7 +259,7 @@ def out_abstract(msg):
         for f in (fa if isinstance(fa, list) else [fa]):
             for a in getattr(f, "additional_avps", []):
                 failed.append((a.code, a.vendor_id))
-    d = dict(cmd=CMD.get(code) or f"App {code}", req=h.is_request, app=h.application_id,
+    d = dict(cmd=CMD.get(code) or f"App {code}", req=h.is_request, flags=h.command_flags, app=h.application_id,
              hbh=h.hop_by_hop_identifier, e2e=h.end_to_end_identifier, result=rc, failed=failed)
     if code == 280 and not h.is_request:
         d["osid"] = getattr(msg, "origin_state_id", None)
@@ -308,7 +347,9 @@ class Run:
                 super().stop()
         peers = []
         for p in cfg["peers"]:
-            pr = node.add_peer("aaa://" + p["name"], p["realm"], ip_addresses=(["10.1.0.9"] if p["addr"] else []),
+            # upper_uri: the peer is CONFIGURED with capitals in its name; on the wire and everywhere else it is the same
+            # (case-insensitive) identity
+            pr = node.add_peer("aaa://" + (p["name"].upper() if cfg.get("upper_uri") else p["name"]), p["realm"], ip_addresses=(["10.1.0.9"] if p["addr"] else []),
                                is_persistent=p["persistent"], is_default=p.get("default", False))
             pr.always_reconnect = p["always"]
             pr.cea_timeout, pr.cer_timeout, pr.dwa_timeout, pr.idle_timeout = p["cea"], p["cer"], p["dwa"], p["idle"]
@@ -508,7 +549,8 @@ class Run:
             sockpeers=sorted(fmap.get(f, 99) for f in node.socket_peers),
             peer_waiting=sorted((h, sorted((k if isinstance(k, tuple) else (k, 0)) for k in d)) for h, d in node._peer_waiting_answer.items()),
             app_waiting=sorted(_idkey(k) for k in node._app_waiting_answer),
-            origin_waiting=sorted(_idkey(k) for k in node._origin_waiting_answer),
+            # keys of this table are "<connection>:<hop-by-hop>:<end-to-end>" (or, before the repair, without the connection)
+            origin_waiting=sorted(_idkey(":".join(str(k).split(":")[-2:])) for k in node._origin_waiting_answer),
             sent_answers=_sent_answers_view(node._sent_answers),
             ready=[a.is_ready.is_set() for a in self.apps],
             answer_waiting=[sorted(a._answer_waiting) for a in self.apps],
